@@ -252,6 +252,7 @@ partial def event (sm : Sim) (ev : String) (nested : Bool := false) : Sim :=
           | fuel + 1 =>
             if sm.w.st.connections.isEmpty || left == 0 then sm
             else
+              let sm := sm.settle
               let sm := { sm with w := { sm.w with st := { sm.w.st with now := sm.w.st.now + 1 } } }
               let evs := sm.waitEvents
               let sm := { sm with waitEvents := [] }
